@@ -340,7 +340,7 @@ func c17LoadCase(c *CaseCtx) *CaseResult {
 			}
 		}
 	case 1: // single-constraint corruption: must fail
-		kinds := []string{"concurrency -1", "concurrency -7", "queue_limit -1", "start_delay -1s", "delay with queue_limit 0", "dependency on missing task", "dependency on another pipeline's task", "unknown strategy", "duplicate name in another file", "unparsable yaml", "dependency with empty name", "dependency that is a YAML null", "start_delay -1s with queue_limit", "dependency on missing task beside valid ones", "concurrency -1 in a later pipeline of the file"}
+		kinds := []string{"concurrency -1", "concurrency -7", "queue_limit -1", "start_delay -1s", "delay with queue_limit 0", "dependency on missing task", "dependency on another pipeline's task", "unknown strategy", "duplicate name in another file", "unparsable yaml", "dependency with empty name", "dependency that is a YAML null", "start_delay -1s with queue_limit", "dependency on missing task beside valid ones", "concurrency -1 in a later pipeline of the file", "verbatim duplicate in another file"}
 		kind := kinds[(c.Idx/3)%len(kinds)]
 		target := r.Intn(nFiles)
 		var victim string
@@ -353,8 +353,11 @@ func c17LoadCase(c *CaseCtx) *CaseResult {
 			res.Evaluations++
 			return res
 		}
-		if kind == "duplicate name in another file" && nFiles < 2 {
-			kind = "concurrency -1"
+		if (kind == "duplicate name in another file" || kind == "verbatim duplicate in another file") && nFiles < 2 {
+			// a second file is needed: add one in a sibling directory
+			files = append(files, c17file{rel: filepath.Join("zz-extra", "pipelines.yml"), pipes: map[string]definition.PipelineDef{}})
+			order = append(order, len(files)-1)
+			nFiles = len(files)
 		}
 		corrupt := func(file int, tree map[string]interface{}) {
 			switch kind {
@@ -364,6 +367,12 @@ func c17LoadCase(c *CaseCtx) *CaseResult {
 					if file == (target+1)%nFiles {
 						tree[victim] = yamlTree(rand.New(rand.NewSource(1)), other)
 					}
+				}
+				return
+			case "verbatim duplicate in another file":
+				// the same name declared twice is an error even when both declarations say the same
+				if file == (target+1)%nFiles {
+					tree[victim] = yamlTree(rand.New(rand.NewSource(c.Seed+9)), files[target].pipes[victim])
 				}
 				return
 			}
@@ -701,7 +710,7 @@ func mutateAll(r *rand.Rand, base definition.PipelinesDef) ([]c17mut, string) {
 func init() {
 	register(&Check{
 		ID: "C17", Level: "exploration",
-		Rule:        "three case kinds over generated definition sets (1-4 files pipelines.yml / pipelines.yaml in nested directories incl. non-ASCII names, 1-3 pipelines each over ALL fields, emitted through yaml.v2 from a generic tree: strategy as string, durations as strings, zero values sometimes explicit sometimes omitted): (a) valid set: LoadRecursively must succeed, satisfy an independent re-statement of every listed constraint, equal the generating definitions after defaults (SourcePath = file), and give the same result when the same files are created in another order; (b) one constraint broken in one place (15 corruption kinds incl. blank and null dependencies, duplicate name in a second file and unparsable YAML): load must fail; (c) Equals: reflexive on a deep copy, symmetric, and false for every single-field edit produced by a REFLECTION-driven mutator over PipelinesDef -> PipelineDef -> TaskDef (int, *int incl. nil<->0, Duration, bool, string, []string append/drop/edit/swap, map[string]string add key with empty value / rename key whose value is empty / change value / remove key, map of structs add / remove / rename entry); a field of a kind the mutator cannot perturb makes the run inconclusive (exit 2), so a new field cannot be silently skipped. A situation is the corruption kind resp. (field, operator)",
+		Rule:        "three case kinds over generated definition sets (1-4 files pipelines.yml / pipelines.yaml in nested directories incl. non-ASCII names, 1-3 pipelines each over ALL fields, emitted through yaml.v2 from a generic tree: strategy as string, durations as strings, zero values sometimes explicit sometimes omitted): (a) valid set: LoadRecursively must succeed, satisfy an independent re-statement of every listed constraint, equal the generating definitions after defaults (SourcePath = file), and give the same result when the same files are created in another order; (b) one constraint broken in one place (16 corruption kinds incl. blank and null dependencies, duplicate name in a second file (different and verbatim content) and unparsable YAML): load must fail; (c) Equals: reflexive on a deep copy, symmetric, and false for every single-field edit produced by a REFLECTION-driven mutator over PipelinesDef -> PipelineDef -> TaskDef (int, *int incl. nil<->0, Duration, bool, string, []string append/drop/edit/swap, map[string]string add key with empty value / rename key whose value is empty / change value / remove key, map of structs add / remove / rename entry); a field of a kind the mutator cannot perturb makes the run inconclusive (exit 2), so a new field cannot be silently skipped. A situation is the corruption kind resp. (field, operator)",
 		Assumptions: []string{"duplicate keys inside one YAML file are merged by yaml.v2 (last wins) and are not generated"},
 		Cases:       func(t string) int { return tierN(t, 900, 24000) },
 		RunCase:     c17LoadCase,
